@@ -28,7 +28,7 @@ Definition dec_bufcfg (v : val) : bufcfg :=
 Record pcase := mkpc {
   pc_entry : N; pc_chunks : list bytes; pc_ending : ending; pc_stop : option nat; pc_buf : bufcfg; pc_id0 : bytes }.
 Definition dec_case (i : val) : pcase :=
-  mkpc (if (as_n (nth_val 0 i) =? 4)%N then 1%N else as_n (nth_val 0 i)) (* 4: a Connection's second attempt *) (map as_b (as_l (nth_val 1 i))) (dec_ending (nth_val 2 i)) (dec_stop (nth_val 3 i))
+  mkpc (if ((as_n (nth_val 0 i) =? 4) || (as_n (nth_val 0 i) =? 6))%N then 1%N else as_n (nth_val 0 i)) (* 4, 6: a Connection's second attempt (6: Buffer was called between the attempts) *) (map as_b (as_l (nth_val 1 i))) (dec_ending (nth_val 2 i)) (dec_stop (nth_val 3 i))
        (dec_bufcfg (nth_val 4 i)) (as_b (nth_val 5 i)).
 
 (* connection-like entries report EOF and take retry values; only entries 2, 3 see them *)
@@ -53,7 +53,7 @@ Definition enc_run (sees_retry : bool) (r : list yield * run_end * parser) : val
    last event ID: Connection.read stores the LastEventID of every event it dispatches, and the next attempt's
    stream is read with it.  So the stream under test is interpreted with the ID carried over - the empty one
    included, when the first stream reset it with an empty id field. *)
-Definition is_second (i : val) : bool := (as_n (nth_val 0 i) =? 4)%N.
+Definition is_second (i : val) : bool := ((as_n (nth_val 0 i) =? 4) || (as_n (nth_val 0 i) =? 6))%N.
 Definition first_body (i : val) : bytes := as_b (nth_val 6 i).
 Definition first_case (c : pcase) (first : bytes) : pcase :=
   mkpc 1%N (match first with [] => [] | _ => [first] end) CleanEOF None (pc_buf c) [].
